@@ -89,11 +89,11 @@ func genC12(e *emitter, tier string, seed int64) {
 		emitSimple(e, call+obs, mkpt("x"), "default_time", call)
 	}
 	// ---- datetime ----
-	for _, sub := range []string{"n", "k", "fl", "nosuch", "message", "v"} {
+	for _, sub := range []string{"n", "k", "fl", "nosuch", "message", "v", "txt", "b1", "hx"} {
 		for _, prec := range []string{"s", "ms", "us", ""} {
 			for _, f := range []string{"RFC3339", "ANSIC", "Kitchen", "nosuchfmt", "RFC3339Nano"} {
 				pt := mkpt("1610358231")
-				pt.Fields = append(pt.Fields, fieldSpec{"k", "int", "1610358231887"})
+				pt.Fields = append(pt.Fields, fieldSpec{"k", "int", "1610358231887"}, fieldSpec{"txt", "str", "hello"}, fieldSpec{"b1", "bool", "true"}, fieldSpec{"hx", "str", " 12"})
 				call := fmt.Sprintf("v = 1610358231\ndatetime(%s, \"%s\", \"%s\")", sub, prec, f)
 				emitSimple(e, call+obs, pt, "datetime", call)
 			}
